@@ -317,13 +317,38 @@ def check_finder(col, rule: str, repo: Repo):
     okc = len(fin) == 1 and isinstance(fin[0].args[0], ast.Name)
     if okc:
         ds = defs_of(aat.node, fin[0].args[0].id)
-        okc = bool(ds) and not any(src(d) == "self._method_names" for d in ds) and any("self._method_names" in src(d) for d in ds)
+        okc = bool(ds) and all(fresh_mapping_from(d, "self._method_names") for d in ds)
     col.add(rule, "executor.apply_ast_transformations", "finder-built-from-a-copy-of-the-method-table", okc,
             "the rewriter must receive dict(self._method_names) updated with this query's metadata (the executor's own table must not be mutated)", aat.loc)
     # metadata callbacks bind their own specification (no late-binding closure over a loop variable)
     bad = late_binding_closures(aat.node)
     col.add(rule, "executor.apply_ast_transformations", "callbacks-bind-their-own-specification", not bad,
             f"closures capturing a loop variable by reference: {bad} - every callback would use the last specification processed", aat.loc)
+
+
+def fresh_mapping_from(e: ast.AST, source: str) -> bool:
+    """e builds a NEW dict that starts from the entries of <source> (writes to the result cannot reach <source>): dict(S), dict(S, **x),
+    S.copy(), copy.copy/deepcopy(S), {**S, ...}, {k: v for k, v in S.items()}, S | {...}, ChainMap({}, S) (writes go to the first map).
+    S itself, ChainMap(S, ..) and read-only views of S are not."""
+    e = strip_cast(e)
+    if isinstance(e, ast.Call):
+        nm = call_name(e)
+        if nm == "dict" and isinstance(e.func, ast.Name) and e.args and src(e.args[0]) == source:
+            return True
+        if nm in ("copy", "deepcopy") and isinstance(e.func, ast.Attribute) and src(e.func.value) == source and not e.args:
+            return True
+        if nm in ("copy", "deepcopy") and e.args and src(e.args[0]) == source:
+            return True
+        if nm == "ChainMap" and len(e.args) >= 2 and isinstance(e.args[0], ast.Dict) and not e.args[0].keys and any(src(a) == source for a in e.args[1:]):
+            return True
+        return False
+    if isinstance(e, ast.Dict):
+        return any(k is None and src(v) == source for k, v in zip(e.keys, e.values))
+    if isinstance(e, ast.DictComp):
+        return len(e.generators) == 1 and src(e.generators[0].iter) in (f"{source}.items()", source)
+    if isinstance(e, ast.BinOp) and isinstance(e.op, ast.BitOr):
+        return src(e.left) == source or src(e.right) == source
+    return False
 
 
 def late_binding_closures(fn: ast.AST) -> List[str]:
